@@ -22,6 +22,7 @@ model, round-trips, schema validates; negative control: without the attribute ev
 Separate small crates: hygiene probe (macro-internal identifiers as field names at every position kind;
 F10) and the discriminant run-time probes (F11, F12)."""
 import random
+import re
 import subprocess
 from collections import Counter
 
@@ -175,8 +176,10 @@ def findings_probe():
     p = subprocess.run(cmd, cwd=d, env=ENV, stdout=subprocess.PIPE, stderr=subprocess.PIPE, text=True)
     rows = [l.split('\t') for l in p.stdout.strip().split('\n') if l]
     if p.returncode != 0 or not rows:
-        # the definitions no longer compile: the findings are repaired (or rustc changed); nothing to report
-        return fails, {'findings_probe': 'does not compile any more: ' + p.stderr[-300:]}
+        # only compile errors located in the probe's own main.rs mean "the definitions no longer compile" (the findings
+        # were repaired, or rustc now lints them); a timeout, a lock wait or a borsh that does not build is not that
+        own = re.search(r'-->\s*src/main\.rs', p.stderr) is not None
+        return fails, {'findings_probe': ('does not compile any more: ' if own else 'PROBE-BROKEN rc=%s: ' % p.returncode) + p.stderr[-300:]}
     info = {}
     for r in rows:
         name = r[0]
@@ -185,7 +188,15 @@ def findings_probe():
         ok = len(r) >= 4 and r[2] == 'tag=%d' % disc and r[3] == 'roundtrip=same'
         if ok:
             continue
-        cls = 'implicit-discr-overflow' if name.startswith('Ov') else 'discr-type-dependent'
+        # the two known findings are specific rows with specific symptoms; Ov::A (= 255, tag 255) is a control, and any
+        # other failing row is a new violation
+        obs = ' '.join(r[2:])
+        if name == 'Ov::B' and (obs.startswith('enc-panic') or obs.startswith('tag=0')):
+            cls = 'implicit-discr-overflow'
+        elif name == 'Not::A' and obs.startswith('tag=255') or name == 'Shl::A' and obs.startswith('tag=0'):
+            cls = 'discr-type-dependent'
+        else:
+            cls = 'tag-source'
         fails.append({'class': cls, 'key': name,
                       'what': '%s: tag byte is not the discriminant although the definition compiles: %s' % (name, ' '.join(r[1:])),
                       'replay_cmd': 'cargo run in .cache/crates/c06_findings'})
@@ -400,6 +411,8 @@ def run(tier, seed, t0):
     pf, pinfo = findings_probe()
     failures += pf
     stats.update(pinfo)
+    if isinstance(pinfo.get('findings_probe'), str) and pinfo['findings_probe'].startswith('PROBE-BROKEN'):
+        disagreements.append({'what': 'the discriminant findings probe could not be built or run: ' + pinfo['findings_probe'][:300]})
     # ---- C06_bounds: where-clause inference on generic items, observed through trait resolution (lib/boundscorr.py);
     #      the theorems about the BorshSchema inner structs it relies on are in Properties/C08gen.v
     coq_gen = coq_property('C08gen')
